@@ -1,4 +1,135 @@
+/-
+C08 — Multi-process filtering delivers every output exactly once and never hangs.
+Property theorems only (model: `Model/C08.lean`, proofs: `Lemmas/C08.lean`).
+
+The model is a labelled transition system (`enabled`, `step`) over the atomic steps of
+`Multiprocessor.filter`; a *schedule* is any sequence of enabled actions, so every theorem below
+quantifies over all interleavings of loader, workers (incl. retiring/replaced ones), callbacks and
+the caller, over all `n ≥ 1`, all `maxtasksperchild`, all item lists and all sets of raising items.
+`Reachable c s` = `s` is reached from `init c` by some schedule.  `outcome s` = what the caller
+sees (`ok outs` / `raised e outs` / `closed outs` after an early abandon).
+-/
 import CobaVerif.Lemmas.C08
+
 namespace Coba.C08
-theorem init_main (c : Cfg) : (init c).main = .waitEvent := init_main' c
+
+/-! ### the inductive invariant -/
+
+theorem inv_init (c : Cfg) (hn : 0 < c.n) : Inv c (init c) := inv_init' c hn
+
+theorem inv_step (c : Cfg) (s : State) (a : Action) (hI : Inv c s) (h : enabled c s a = true) :
+    Inv c (step c s a) := inv_step' c s a hI h
+
+theorem inv_reachable (c : Cfg) (hn : 0 < c.n) (s : State) (h : Reachable c s) : Inv c s :=
+  inv_reachable' c hn s h
+
+/-! ### every output exactly once -/
+
+/-- no item raises ⇒ a finished (not abandoned) call returned normally and handed over exactly the
+multiset of outputs the wrapped filter produces item by item -/
+theorem exactly_once (c : Cfg) (hn : 0 < c.n) (s : State) (hr : Reachable c s) (hd : s.main = .done)
+    (hab : s.abandoned = false) (hne : ∀ x ∈ c.items, x.err = none) :
+    ∃ outs, outcome s = .ok outs ∧ outs.Perm (allOuts c) := exactly_once' c hn s hr hd hab hne
+
+/-- whenever the call returns normally nothing was dropped: all outputs were delivered and no item raised -/
+theorem ok_complete (c : Cfg) (hn : 0 < c.n) (s : State) (hr : Reachable c s) (hd : s.main = .done)
+    (outs : List Nat) (ho : outcome s = .ok outs) : outs.Perm (allOuts c) ∧ allErrs c = [] :=
+  ok_complete' c hn s hr hd outs ho
+
+/-- at every moment of every schedule (also when the call ends by an error or is abandoned) no
+output has been delivered more often than the filter produced it -/
+theorem never_duplicated (c : Cfg) (hn : 0 < c.n) (s : State) (hr : Reachable c s) (o : Nat) :
+    s.recv.count o ≤ (allOuts c).count o := never_duplicated' c hn s hr o
+
+/-! ### errors surface -/
+
+/-- some item raises ⇒ a finished (not abandoned) call raised, and what it raised is one of the
+filter's own errors -/
+theorem error_surfaces (c : Cfg) (hn : 0 < c.n) (s : State) (hr : Reachable c s) (hd : s.main = .done)
+    (hab : s.abandoned = false) (x : ItemSpec) (hx : x ∈ c.items) (hxe : x.err ≠ none) :
+    ∃ e outs, outcome s = .raised e outs ∧ e ∈ allErrs c := error_surfaces' c hn s hr hd hab x hx hxe
+
+/-- the call never raises anything but an error of the wrapped filter -/
+theorem raised_genuine (c : Cfg) (hn : 0 < c.n) (s : State) (hr : Reachable c s)
+    (e : Nat) (outs : List Nat) (ho : outcome s = .raised e outs) : e ∈ allErrs c :=
+  raised_genuine' c hn s hr e outs ho
+
+/-! ### never hangs -/
+
+/-- as long as the call has not finished some step other than "the caller gives up" is enabled -/
+theorem deadlock_free (c : Cfg) (hn : 0 < c.n) (s : State) (hr : Reachable c s) (hnd : s.main ≠ .done) :
+    ∃ a, a ≠ Action.cAbandon ∧ enabled c s a = true := deadlock_free' c hn s hr hnd
+
+/-- a natural-number measure strictly decreases on every enabled step (from any state) -/
+theorem variant_decreases (c : Cfg) (s : State) (a : Action) (h : enabled c s a = true) :
+    mu c (step c s a) < mu c s := mu_decreases' c s a h
+
+/-- hence every schedule is finite: no run is longer than `mu (init c)` … -/
+theorem terminates (c : Cfg) (tr : List Action) (s : State) (h : runTrace c (init c) tr = some s) :
+    tr.length ≤ mu c (init c) := by
+  have := run_bounded' c (init c) s tr h; omega
+
+/-- … and a schedule that cannot be extended has finished the call (no fairness assumption needed) -/
+theorem reaches_done (c : Cfg) (hn : 0 < c.n) (tr : List Action) (s : State)
+    (h : runTrace c (init c) tr = some s)
+    (hstuck : ∀ a, a ≠ Action.cAbandon → enabled c s a = false) : s.main = .done :=
+  reaches_done' c hn tr s h hstuck
+
+/-! ### abandoning the output early -/
+
+/-- the caller may give up after any output; its `finally` block never blocks (the final step is
+enabled in every state of that phase) and the call ends without raising, whatever the workers do -/
+theorem abandon_terminates (c : Cfg) (s : State) (hc : s.main = .consuming) :
+    enabled c s .cAbandon = true ∧
+    (∀ s', s'.main = .fin → enabled c s' .mDone = true) ∧
+    outcome (step c (step c s .cAbandon) .mDone) = .closed s.recv := by
+  refine ⟨by simp [enabled, hc], ?_, by simp [step, outcome]⟩
+  intro s' h; simp [enabled, h]
+
+/-! ### maxtasksperchild -/
+
+/-- with `maxtasksperchild = m > 0` no worker process has ever taken more than `m` items -/
+theorem max_tasks_respected (c : Cfg) (hn : 0 < c.n) (hm : 0 < c.m) (s : State) (hr : Reachable c s)
+    (w k : Nat) (p : List Nat) (e : Option Nat) (h : s.ws[w]? = some (.run k p e)) : k ≤ c.m :=
+  max_tasks' c hn hm s hr w k p e h
+
+/-! ### the in-process path (`n_processes = 1`, `maxtasksperchild = 0`) -/
+
+theorem inproc_exact (items : List ItemSpec) (h : ∀ x ∈ items, x.err = none) :
+    inproc items = (items.flatMap (·.outs), none) := inproc_ok' items h
+
+theorem inproc_error_surfaces (items : List ItemSpec) (x : ItemSpec) (hx : x ∈ items) (hxe : x.err ≠ none) :
+    ∃ e, (inproc items).2 = some e ∧ e ∈ items.filterMap (·.err) := inproc_err' items x hx hxe
+
+theorem inproc_never_duplicated (items : List ItemSpec) :
+    (inproc items).1.Sublist (items.flatMap (·.outs)) := inproc_sublist' items
+
+/-! ### the hypotheses are satisfiable: complete schedules observed on the real code
+(logged by the harness from `Multiprocessor.filter` under the controlled scheduler) -/
+
+/-- fewer items than processes (n = 3, one item) -/
+def exFew : Cfg := { n := 3, m := 0, items := [{ id := 0, outs := [7], err := none }] }
+def exFewTrace : List Action := [.wBegin 0, .mEvent, .wBegin 2, .loadTake, .wBegin 1, .loadPut, .wGet 0, .wPut 0, .cGet, .loadFinish, .loadTake, .loadPut, .loadTake, .wGet 1, .wCallback 1, .loadPut, .loadTake, .wGet 2, .loadPut, .wCallback 2, .wGet 0, .wCallback 0, .cGet, .mDone]
+example : (runTrace exFew (init exFew) exFewTrace).map outcome = some (.ok [7]) := by decide
+
+/-- item count an exact multiple of maxtasksperchild (n = 2, m = 2, four items) -/
+def exMult : Cfg := { n := 2, m := 2, items := [{ id := 0, outs := [1], err := none }, { id := 1, outs := [2], err := none }, { id := 2, outs := [3, 3], err := none }, { id := 3, outs := [4], err := none }] }
+def exMultTrace : List Action := [.wBegin 0, .mEvent, .wBegin 1, .loadTake, .loadPut, .loadTake, .wGet 0, .wPut 0, .cGet, .loadPut, .loadTake, .wGet 0, .wPut 0, .wRetire 0, .cGet, .wCallback 0, .loadPut, .loadTake, .loadPut, .wGet 1, .wPut 1, .loadFinish, .loadTake, .cGet, .wBegin 0, .wGet 0, .wPut 0, .cGet, .loadPut, .loadTake, .wPut 1, .loadPut, .wGet 1, .wCallback 1, .wGet 0, .wCallback 0, .cGet, .cGet, .mDone]
+example : (runTrace exMult (init exMult) exMultTrace).map outcome = some (.ok [1, 2, 3, 4, 3]) := by decide
+
+/-- m = 1: every item is handled by a fresh process -/
+def exOne : Cfg := { n := 1, m := 1, items := [{ id := 0, outs := [1], err := none }, { id := 1, outs := [2], err := none }] }
+def exOneTrace : List Action := [.wBegin 0, .mEvent, .loadTake, .loadPut, .loadTake, .wGet 0, .loadPut, .wPut 0, .wRetire 0, .loadFinish, .loadTake, .loadPut, .cGet, .wCallback 0, .wBegin 0, .wGet 0, .wPut 0, .wRetire 0, .wCallback 0, .cGet, .wBegin 0, .wGet 0, .wCallback 0, .cGet, .mDone]
+example : (runTrace exOne (init exOne) exOneTrace).map outcome = some (.ok [1, 2]) := by decide
+
+/-- an item raises: the call raises that error (after delivering what was produced) -/
+def exErr : Cfg := { n := 2, m := 1, items := [{ id := 0, outs := [1], err := some 0 }, { id := 1, outs := [2], err := none }, { id := 2, outs := [3], err := none }] }
+def exErrTrace : List Action := [.wBegin 0, .mEvent, .wBegin 1, .loadTake, .loadPut, .loadTake, .wGet 0, .wPut 0, .wRaise 0, .loadPut, .loadTake, .wGet 1, .loadPut, .cGet, .loadFinish, .loadTake, .wPut 1, .wRetire 1, .wCallback 1, .wCallback 0, .wBegin 1, .wGet 1, .loadPut, .loadTake, .cGet, .wPut 1, .wRetire 1, .loadPut, .wCallback 1, .cGet, .cGet, .drainIn, .drainIn, .mDone]
+example : (runTrace exErr (init exErr) exErrTrace).map outcome = some (.raised 0 [1, 2, 3]) := by decide
+
+/-- the caller abandons after the first output -/
+def exAb : Cfg := { n := 2, m := 0, items := [{ id := 0, outs := [1], err := none }, { id := 1, outs := [2], err := none }, { id := 2, outs := [3], err := none }] }
+def exAbTrace : List Action := [.wBegin 0, .mEvent, .wBegin 1, .loadTake, .loadPut, .loadTake, .wGet 0, .wPut 0, .cGet, .cAbandon, .mDone]
+example : (runTrace exAb (init exAb) exAbTrace).map outcome = some (.closed [1]) := by decide
+
 end Coba.C08
